@@ -1,12 +1,69 @@
-"""markdown table of the seeded changes and what the checks did with them (for DESIGN.md §10)"""
+"""markdown table of the seeded changes and what the checks did with them (DESIGN.md §10).
+Rows already in DESIGN.md are kept as they are (their notes were written when the change was handled); rows for new
+seeds are built from seeded/<id>/meta.json and NOTES below.  usage: tools/seedtable.py [--write]"""
 import json
+import re
+import sys
 from pathlib import Path
-rows = []
-for d in sorted((Path(__file__).resolve().parent.parent / "seeded").iterdir()):
+
+VERIF = Path(__file__).resolve().parent.parent
+NOTES = {
+    "C02-r2change1": "missed at first: no unit went through the plan-text API on the shipped example plans; every plan unit now records what parse_simaple_runtime / has_environment say about its job's example plan and then asks get_initial_plan_from_baseline for another character (also in the noise steps)",
+    "C11-r2change1": "first reported without a failing input (translator refusal only); the laws evaluated on the real operators now include: the result of +, sum, stack is a new object and a later += on it leaves every operand unchanged",
+    "C11-r2change2": "the harness crashed at first (ValidationError out of Stat.stack); an operator that raises on a legal block is now a failing input",
+    "C12-r2change2": "missed at first: every log went to a fresh calculator; sequences of logs with different buffs now go through ONE DamageCalculator and are compared with fresh calculators (plus monotonicity in the buff)",
+    "C14-r2change1": "the harness crashed at first while preparing plan cases; a line in canonical layout that the parser rejects is now a failing input",
+    "C16-r2change1": "first reported without a failing input; the joint configurations now include per-skill mastery levels that mix 0 and >0 within one job",
+    "C16-r2change2": "the harness crashed at first in the hand-model requests; a patch that raises inside the documented range is now data, and the failing build is found by the level sweep",
+    "C17-r2change1": "missed at first: bonus kinds of a blueprint were always distinct; the generators now also list one kind twice with different grades",
+    "C18-r2change1": "missed at first: added sequences through ONE BonusCalculator over boss / non-boss gears of the same level, each answer compared with a fresh calculator",
+    "C18-r2change2": "missed at first: the answers of such a sequence are kept and re-read (and re-checked for soundness) after all later requests",
+    "C20-r2change2": "first reported without a failing input; one-field changes that leave get_memoization_key() equal (cheap probe) are now requested first, with exactly those values",
+}
+
+
+def existing_rows():
+    rows = {}
+    txt = (VERIF / "DESIGN.md").read_text()
+    m = re.search(r"\| id \| change \| needs, in order to manifest \| result \|\n\|[-|]+\|\n((?:\|.*\n)+)", txt)
+    if m:
+        for line in m.group(1).splitlines():
+            rid = line.split("|")[1].strip()
+            rows[rid] = line
+    return rows, (m.span(1) if m else None), txt
+
+
+def row_of(d: Path):
     m = json.loads((d / "meta.json").read_text())
     v = m.get("verification", {})
-    caught = "caught, failing input" if v.get("caught_with_failing_input") else ("caught (no-failing-input-found)" if v.get("caught") else "MISSED")
-    how = "; ".join(v.get("no_longer_checks") or [])[:80]
-    rows.append(f"| {d.name} | {m.get('summary', '')[:150].replace('|', '/')} | {m.get('needs', '')[:150].replace('|', '/')} | {caught} ({v.get('check_cmd', '').split(' ')[-1]}) | {how} |")
-print("| id | change | needs | result | broken obligations |\n|----|--------|-------|--------|--------------------|")
-print("\n".join(rows))
+    cmd = v.get("check_cmd", "").split("./check ")[-1]
+    if v.get("caught_with_failing_input"):
+        res = f"`./check {cmd}`: caught with a failing input"
+    elif v.get("caught"):
+        res = f"`./check {cmd}`: caught (no-failing-input-found)"
+    else:
+        res = f"`./check {cmd}`: MISSED"
+    broke = sorted({b.split(":")[0] + ":" + b.split(":", 1)[1][:60] for b in (v.get("no_longer_checks") or []) if b})
+    if broke:
+        res += " — also broke: " + "; ".join(broke[:2])
+    if d.name in NOTES:
+        res += " — " + NOTES[d.name]
+    cut = lambda s: (s or "")[:170].replace("|", "/").replace("\n", " ")
+    return f"| {d.name} | {cut(m.get('summary'))} | {cut(m.get('needs'))} | {res} |"
+
+
+def main():
+    rows, span, txt = existing_rows()
+    for d in sorted((VERIF / "seeded").iterdir()):
+        if d.name not in rows or d.name in NOTES:
+            rows[d.name] = row_of(d)
+    out = "\n".join(rows[k] for k in sorted(rows)) + "\n"
+    if "--write" in sys.argv and span:
+        (VERIF / "DESIGN.md").write_text(txt[:span[0]] + out + txt[span[1]:])
+        print(f"{len(rows)} rows written")
+    else:
+        print(out)
+
+
+if __name__ == "__main__":
+    main()
